@@ -54,13 +54,53 @@ func c15Policy(p int) ociunify.ReadPolicy {
 	return ociunify.ReadSequential
 }
 
+// ctxMember makes an in-memory member behave like a remote one in one respect: the readers it
+// returns stop working once the context of the call that produced them is cancelled.
+type ctxMember struct{ ociregistry.Interface }
+
+type ctxReader struct {
+	ociregistry.BlobReader
+	ctx context.Context
+}
+
+func (r ctxReader) Read(p []byte) (int, error) {
+	if err := r.ctx.Err(); err != nil {
+		return 0, err
+	}
+	return r.BlobReader.Read(p)
+}
+
+func ctxWrap(ctx context.Context, r ociregistry.BlobReader, err error) (ociregistry.BlobReader, error) {
+	if err != nil {
+		return nil, err
+	}
+	return ctxReader{r, ctx}, nil
+}
+
+func (m ctxMember) GetBlob(ctx context.Context, repo string, d ociregistry.Digest) (ociregistry.BlobReader, error) {
+	r, err := m.Interface.GetBlob(ctx, repo, d)
+	return ctxWrap(ctx, r, err)
+}
+func (m ctxMember) GetBlobRange(ctx context.Context, repo string, d ociregistry.Digest, o0, o1 int64) (ociregistry.BlobReader, error) {
+	r, err := m.Interface.GetBlobRange(ctx, repo, d, o0, o1)
+	return ctxWrap(ctx, r, err)
+}
+func (m ctxMember) GetManifest(ctx context.Context, repo string, d ociregistry.Digest) (ociregistry.BlobReader, error) {
+	r, err := m.Interface.GetManifest(ctx, repo, d)
+	return ctxWrap(ctx, r, err)
+}
+func (m ctxMember) GetTag(ctx context.Context, repo, tag string) (ociregistry.BlobReader, error) {
+	r, err := m.Interface.GetTag(ctx, repo, tag)
+	return ctxWrap(ctx, r, err)
+}
+
 func newC15State(pol int, imm bool, c Case) *c15State {
 	s := &c15State{pol: pol}
 	s.m0 = ocimem.NewWithConfig(&ocimem.Config{ImmutableTags: imm})
 	s.m1 = ocimem.NewWithConfig(&ocimem.Config{ImmutableTags: imm})
 	s.i0, s.i1 = newRegInterp(s.m0), newRegInterp(s.m1)
-	s.iu = newRegInterp(ociunify.New(s.m0, s.m1, &ociunify.Options{ReadPolicy: c15Policy(pol)}))
-	s.ialt = newRegInterp(ociunify.New(s.m0, s.m1, &ociunify.Options{ReadPolicy: c15Policy(1 - pol)}))
+	s.iu = newRegInterp(ociunify.New(ctxMember{s.m0}, ctxMember{s.m1}, &ociunify.Options{ReadPolicy: c15Policy(pol)}))
+	s.ialt = newRegInterp(ociunify.New(ctxMember{s.m0}, ctxMember{s.m1}, &ociunify.Options{ReadPolicy: c15Policy(1 - pol)}))
 	// universe for snapshots: every digest and repository the case mentions
 	seenD, seenR := map[string]bool{}, map[string]bool{}
 	for _, l := range c.Lines {
